@@ -365,7 +365,14 @@ class CodecMonitor:
             self.java_out.close()
 
 
-def gen_case(rnd, pool, java_bias=0.0):
+def gen_case(rnd, pool, java_bias=0.0, big=False):
+    if big:
+        t = auxgen.gen_type(rnd, rnd.choice([5, 6]))
+        return t, auxgen.gen_value(rnd, t, pool, maxlen=rnd.choice([8, 40]))
+    return _gen_case(rnd, pool, java_bias)
+
+
+def _gen_case(rnd, pool, java_bias=0.0):
     if rnd.random() < java_bias:
         for _ in range(20):
             t = auxgen.gen_type(rnd, rnd.choice([0, 1, 2, 2, 3, 4]),
